@@ -43,8 +43,10 @@ class Recorder:
         self.w = np.array([[rng.randint(-3, 3) for _ in range(3)] for _ in range(d)], dtype=float)
         self.table = []
         self.inputs = []
+        self.raw_inputs = []
 
     def __call__(self, X):
+        self.raw_inputs.append(np.asarray(X).copy())     # exactly what reaches the model (dtype included)
         X = np.asarray(X, dtype=float)
         self.inputs.append(X.copy())
         n = X.shape[0]
@@ -94,6 +96,7 @@ def wrapper_cases(chk, n_cases):
         keys = names_all if use_names else names_all[:d]
 
         int_first = (i % 3 == 1)
+        id_column = rng.choice([None, None, "row-17", "1e3", "nan"]) if use_names else None
 
         def mk(row=[0]):
             row[0] += 1
@@ -103,11 +106,14 @@ def wrapper_cases(chk, n_cases):
                 items = [(k, rng.randint(-8, 8) / 4) for k in keys]               # later rows: non-integral floats
             else:
                 items = [(k, float(rng.randint(-4, 4))) for k in keys]
+            if use_names and id_column:
+                # the key that is not among the feature names holds something that is not a number (an id column)
+                items[-1] = (items[-1][0], id_column)
             if use_names:
                 rng.shuffle(items)
             return dict(items)
         idx = {k: j for j, k in enumerate(names_all)}
-        desc = {"d": d, "out": kind, "dtype": dtype, "feature_names": use_names, "batch": batch}
+        desc = {"d": d, "out": kind, "dtype": dtype, "feature_names": use_names, "batch": batch, "id_column": id_column}
         chk.case(dict(desc, i=i), nontrivial=True, sample=(i < 3))
         chk.stat(f"out:{kind}")
         chk.stat(f"dtype:{dtype}")
@@ -125,6 +131,10 @@ def wrapper_cases(chk, n_cases):
                     # key-order independence / only named features reach the model
                     if use_names:
                         arr = rec.inputs[0]
+                        if rec.raw_inputs[0].dtype.kind not in "fiub":
+                            chk.violation("feature-selection", f"SklearnWrapper(feature_names={fnames}): all named features of {x} are numbers but the model "
+                                          f"received an array of dtype {rec.raw_inputs[0].dtype} ({rec.raw_inputs[0].tolist()}): something other than the named features reached it",
+                                          dict(desc, x=x))
                         if arr.shape != (1, d) or list(arr[0]) != [x[k] for k in fnames]:
                             chk.violation("feature-selection", f"SklearnWrapper(feature_names={fnames}): the model received {arr.tolist()} for input {x}",
                                           dict(desc, x=x))
@@ -132,7 +142,7 @@ def wrapper_cases(chk, n_cases):
                         if w(x2) != got:
                             chk.violation("key-order", f"SklearnWrapper(feature_names={fnames}): result depends on the key order of the input dict", dict(desc, x=x))
                     reqs.append({"op": "wrapper", "names": [idx[k] for k in fnames] if use_names else None,
-                                 "x": [[idx[k], fr(v)] for k, v in x.items()], "pred": rec.table})
+                                 "x": [[idx[k], fr(v)] for k, v in x.items() if not isinstance(v, str)], "pred": rec.table})
                     impls.append((desc, {"one": canon_out(got)}))
                 else:
                     xs = [mk() for _ in range(batch)]
@@ -148,7 +158,7 @@ def wrapper_cases(chk, n_cases):
                         chk.violation("batch-vs-single", f"SklearnWrapper, row-wise model with output kind {kind}, batch of {batch}: list call gave "
                                       f"{got!r}, one-at-a-time calls gave {singles!r}", dict(desc, xs=xs))
                     reqs.append({"op": "wrapper", "names": [idx[k] for k in fnames] if use_names else None,
-                                 "xs": [[[idx[k], fr(v)] for k, v in xi.items()] for xi in xs], "pred": rec.table[:1]})
+                                 "xs": [[[idx[k], fr(v)] for k, v in xi.items() if not isinstance(v, str)] for xi in xs], "pred": rec.table[:1]})
                     impls.append((desc, {"many": [canon_out(g) for g in got]}))
         except Exception as ex:
             chk.violation("wrapper-exception", f"SklearnWrapper {desc}: raised {core.err_kind(ex)}: {ex}", desc)
